@@ -67,6 +67,12 @@ TOL = 1e-7
 # =================================================================================================
 # gate menu: name -> (number of symbolic parameters, builder(params) -> gate, documented matrix)
 # =================================================================================================
+def _syc():
+    import cirq_google
+
+    return cirq_google.SYC
+
+
 def gate_table():
     import cirq
 
@@ -108,6 +114,7 @@ def gate_table():
         'ISWAP1': (0, lambda: cirq.ISWAP, lambda: D.ISWAP(1.0)),
         'SQISWAP': (0, lambda: cirq.SQRT_ISWAP, lambda: D.ISWAP(0.5)),
         'I1': (0, lambda: cirq.I, lambda: np.eye(2)),
+        'SYC': (0, _syc, lambda: D.fsim(np.pi / 2, np.pi / 6)),
     }
 
 
@@ -144,6 +151,14 @@ class Built:
         return f
 
 
+def _conds(c):
+    """'a' -> key condition; ('a', 'b') -> both; 'sympy:a > b' -> sympy condition over the keys"""
+    import sympy
+
+    cs = [c] if isinstance(c, str) else list(c)
+    return [sympy.parse_expr(x[6:]) if x.startswith('sympy:') else x for x in cs]
+
+
 def build(cx, spec, qubits, B=None, top=True, pin_after=None):
     import cirq
 
@@ -163,21 +178,19 @@ def build(cx, spec, qubits, B=None, top=True, pin_after=None):
                 op = cirq.CircuitOperation(cirq.FrozenCircuit(inner), repetitions=opt.get('reps', 1))
             else:
                 npar, mk, doc = G[name]
-                ps = [cx.real(f'p{B.n_params + j}', -BOX, BOX) for j in range(npar)]
-                if B.pin_after is not None and cx.mode == 'sym':
-                    # vacuity twins: all but the first few parameters are pinned to generic values so
-                    # that the witness search for the (deliberately wrong) assertion stays easy
-                    for j, pv in enumerate(ps):
-                        k = B.n_params + j
-                        if k >= B.pin_after:
-                            cx.assume(pv == TWIN_PINS[k % len(TWIN_PINS)])
+                # vacuity twins: all but the first few parameters are generic CONSTANTS so that the
+                # witness search for the (deliberately wrong) assertion stays easy
+                ps = [
+                    TWIN_PINS[(B.n_params + j) % len(TWIN_PINS)] if (B.pin_after is not None and B.n_params + j >= B.pin_after) else cx.real(f'p{B.n_params + j}', -BOX, BOX)
+                    for j in range(npar)
+                ]
                 B.n_params += npar
                 op = mk(*ps).on(*qs)
                 B.doc[id(op)] = np.asarray(doc(*ps))
                 B.keep.append(op)
             if opt.get('ctrl'):
                 base = op
-                op = op.with_classical_controls(*([opt['ctrl']] if isinstance(opt['ctrl'], str) else opt['ctrl']))
+                op = op.with_classical_controls(*_conds(opt['ctrl']))
                 # the interpreter strips the control and asks for the matrix of the inner op
                 B.keep.append(base)
                 inner_op = op.without_classical_controls()
@@ -319,7 +332,7 @@ def twin_budget(cx):
     """vacuity twins only need ONE refuting path: paths whose path condition is hard for the witness
     search are given up quickly instead of spending the full per-VC timeout three times"""
     if cx.mode == 'sym':
-        cx.opts['vc_timeout_ms'] = 4000
+        cx.opts['vc_timeout_ms'] = 8000
         cx.opts['lattices'] = (4,)
 
 
@@ -364,6 +377,28 @@ def _sub(moments, **kw):
     return d
 
 
+def key_shapes():
+    """neighbourhoods around measurement keys that every pass which moves / groups operations must
+    respect (shared by align, stratify, synchronize, merge_*, map_*): n, shape"""
+    return {
+        'keys': (2, [[('X', [0])], [('M', [0], {'key': 'a'})], [('X', [1], {'ctrl': 'a'})], [('Z', [1])], [('M', [1], {'key': 'b'})]]),
+        # a classically controlled op must not move / merge leftwards past the measurement of its key
+        'keys2': (2, [[('X', [0]), ('Y', [1])], [('M', [0], {'key': 'a'})], [('X', [1], {'ctrl': 'a'})], [('M', [1], {'key': 'b'})]]),
+        # a re-measurement of the key must not move / merge leftwards past an op controlled by it
+        'keys3': (2, [[('X', [0])], [('M', [0], {'key': 'a'})], [('Y', [1], {'ctrl': 'a'})], [('X', [0])], [('M', [0], {'key': 'a'})]]),
+        'remeasure': (2, [[('X', [0])], [('M', [0], {'key': 'a'}), ('Y', [1])], [], [('X', [1], {'ctrl': 'a'})], [('X', [0])], [('M', [0], {'key': 'a'})]]),
+        # ... also when the re-measurement sits on ANOTHER qubit (no qubit conflict protects the order)
+        'remeasure2': (2, [[('X', [0]), ('X', [1])], [('M', [0], {'key': 'a'})], [('X', [0])], [('Y', [0], {'ctrl': 'a'})], [('M', [1], {'key': 'a'})]]),
+        # an op controlled by key a listed BEFORE a re-measurement of a in the same moment (ops of one
+        # moment take effect in the order listed): it must keep reading the first result
+        'samemoment': (2, [[('X', [0])], [('M', [0], {'key': 'a'})], [('X', [0])], [('Y', [1], {'ctrl': 'a'}), ('M', [0], {'key': 'a'})]]),
+        # same key measured on two qubits: the order of the two records must be kept
+        'samekey': (2, [[('X', [0]), ('X', [1])], [('M', [0], {'key': 'a'})], [('Y', [1])], [('M', [1], {'key': 'a'})]]),
+        # value-equal operations (same gate object value on the same qubit) at different places
+        'equal_ops': (2, [[('X1', [0])], [('M', [0], {'key': 'a'})], [('X1', [0])], [('M', [0], {'key': 'a'})], [('Y', [1], {'ctrl': 'a'})]]),
+    }
+
+
 # =================================================================================================
 # eject_z
 # =================================================================================================
@@ -390,6 +425,7 @@ def fam_eject_z(thorough):
         'z_ccz_x': (3, [[('Z', [0]), ('Z', [2])], [('CCZ', [0, 1, 2])], [('X', [2])]]),
         'z_sub_x': (2, [[('Z', [0])], [('SUB', [0, 1], _sub([[('Z', [0])], [('X', [0]), ('Z', [1])], [('CZ', [0, 1])]]))], [('X', [0])]]),
         'z_subign_x': (1, [[('Z', [0])], [('SUB', [0], _sub([[('Z', [0])], [('X', [0])]], tags=(IGN,)))], [('X', [0])]]),
+        'z_nested2ign': (1, [[('Z', [0])], [('SUB', [0], _sub([[('Z', [0])], [('SUB', [0], _sub([[('Z', [0])], [('X', [0])]], tags=(IGN,)))], [('X', [0])]]))], [('X', [0])]]),
         'z_sub2_x': (1, [[('Z', [0])], [('SUB', [0], _sub([[('Z', [0])], [('PhXZ_z', [0])]], reps=2))], [('X', [0])]]),
     }
     if thorough:
@@ -397,7 +433,7 @@ def fam_eject_z(thorough):
             {
                 'T_phxz_full': (1, [[('Z', [0])], [('PhXZ', [0])], [('X', [0])]]),
                 'T_phxz_phxz_full': (1, [[('PhXZ', [0])], [('PhXZ_za', [0])], [('Z', [0], T_IGN)]]),
-                'T_long': (3, [[('Z', [0]), ('PhX', [1])], [('CZ', [0, 1])], [('SWAP1', [1, 2])], [('Z', [2]), ('X', [0])], [('CZ', [1, 2])], [('Y', [1])]]),
+                'T_long': (3, [[('Z', [0]), ('PhX', [1])], [('CZ1', [0, 1])], [('SWAP1', [1, 2])], [('Z', [2]), ('X1', [0])], [('CZ', [1, 2])], [('Y1', [1])]]),
                 'T_z_m': (2, [[('Z', [0]), ('X', [1])], [('CZ', [0, 1])], [('Z', [1])], [('PhX', [1])]]),
             }
         )
@@ -461,8 +497,11 @@ def fam_eject_pp(thorough):
     if thorough:
         S.update(
             {
-                'T_long': (3, [[('W', [0]), ('X', [1])], [('CZ', [0, 1])], [('Z', [0]), ('PhX', [1])], [('CZ', [1, 2])], [('W', [2])], [('Z', [2])]]),
+                'T_long': (3, [[('W', [0]), ('X1', [1])], [('CZ', [0, 1])], [('Z', [0]), ('Y1', [1])], [('CZ1', [1, 2])], [('X1', [2])], [('Z', [2])]]),
                 'T_subign': (2, [[('W', [0])], [('SUB', [0, 1], _sub([[('W', [0])], [('CZ', [0, 1])]], tags=(IGN,)))], [('W', [0])]]),
+                'T_w_w_cz_phx': (2, [[('W', [0]), ('W', [1])], [('CZ', [0, 1])], [('PhX', [0])]]),
+                'T_w_sub_w': (1, [[('W', [0])], [('SUB', [0], _sub([[('W', [0])], [('Z', [0])], [('X', [0])]]))], [('W', [0])]]),
+                'T_w_ign_w': (1, [[('W', [0])], [('Z', [0], T_IGN)], [('W', [0])]]),
             }
         )
     obs = []
@@ -500,9 +539,8 @@ def fam_align(thorough):
         'gaps': (3, [[('X', [0])], [], [('CZ', [0, 1])], [('Y', [2])], [('Z', [1]), ('H', [2])]], 'unitary'),
         'ign': (3, [[('X', [0])], [('Z', [1], T_IGN)], [('CZ', [1, 2])], [('Y', [0], T_IGN), ('PhX', [2])]], 'unitary'),
         'sub': (2, [[('X', [0])], [], [('SUB', [0, 1], _sub([[('Z', [0])], [], [('CZ', [0, 1])], [('X', [1])]]))], [('Y', [1])]], 'unitary'),
-        'meas': (2, [[('X', [0])], [('M', [0], {'key': 'a'})], [('X', [1], {'ctrl': 'a'})], [('Z', [0])], [('M', [1], {'key': 'b'})]], 'meaning'),
-        'meas2': (2, [[('X', [0]), ('X', [1])], [('M', [0], {'key': 'a'})], [('Y', [1])], [('M', [1], {'key': 'a'})]], 'meaning'),
     }
+    S.update({'key.' + k: (n, sh, 'meaning') for k, (n, sh) in key_shapes().items()})
     if thorough:
         S['T_long'] = (3, [[('X', [0])], [('CZ', [1, 2])], [], [('Z', [0], T_IGN)], [('CCZ', [0, 1, 2])], [('Y', [1])]], 'unitary')
 
@@ -540,12 +578,14 @@ def fam_stratify(thorough):
         'sub': (2, [[('X', [0])], [('SUB', [0, 1], _sub([[('X', [0]), ('Z', [1])], [('CZ', [0, 1])]]))], [('Z', [1])]], 'unitary'),
         'meas': (2, [[('H1', [0])], [('M', [0], {'key': 'a'}), ('X', [1])], [('X', [1], {'ctrl': 'a'})], [('M', [1], {'key': 'b'})]], 'meaning'),
     }
+    S.update({'key.' + k: (n, sh, 'meaning') for k, (n, sh) in key_shapes().items()})
     CATS = [
         ('none', lambda: ()),
         ('types', lambda: (cirq.XPowGate, cirq.ZPowGate)),
         ('pred', lambda: (lambda op: len(op.qubits) == 1,)),
         ('instance', lambda: (cirq.X, cirq.CZ)),
         ('meas', lambda: (cirq.MeasurementGate, cirq.XPowGate)),
+        ('meas_only', lambda: (cirq.MeasurementGate,)),
     ]
 
     def extra(cx, B, out, opt, lab):
@@ -569,7 +609,7 @@ def fam_stratify(thorough):
     obs = []
     for sname, (n, shape, kind) in S.items():
         options = []
-        for cname, cf in CATS if (thorough or sname == 'mix') else CATS[:3] + ([CATS[4]] if kind == 'meaning' else []):
+        for cname, cf in CATS if (thorough or sname == 'mix') else (CATS[:3] if kind == 'unitary' else [CATS[0], CATS[2], CATS[4], CATS[5]]):
             for o in opts_for(shape):
                 o = dict(o)
                 o['cats'] = cf
@@ -597,6 +637,7 @@ def fam_drop_empty(thorough):
         'gaps': (2, [[], [('X', [0])], [], [], [('CZ', [0, 1])], []]),
         'sub': (2, [[('X', [0])], [], [('SUB', [0, 1], _sub([[], [('Z', [0])], [], [('CZ', [0, 1])]]))], []]),
         'subign': (2, [[], [('SUB', [0, 1], _sub([[], [('Z', [0])], [], [('CZ', [0, 1])]], tags=(IGN,)))], [('X', [1])]]),
+        'nested2ign': (2, [[('X', [0])], [], [('SUB', [0, 1], _sub([[('Z', [0])], [], [('SUB', [0, 1], _sub([[('Y', [0])], [], [('CZ', [0, 1])]], tags=(IGN,)))]]))]]),
     }
 
     def extra(cx, B, out, opt, lab):
@@ -624,6 +665,9 @@ def fam_insertion_sort(thorough):
         'zz_z': (3, [[('ZZ', [1, 2])], [('CZ', [0, 1])], [('Z', [0])]], 'unitary'),
         'keys': (2, [[('X', [1])], [('M', [1], {'key': 'a'})], [('X', [0], {'ctrl': 'a'})], [('M', [0], {'key': 'b'})]], 'meaning'),
         'samekey': (2, [[('X', [0]), ('X', [1])], [('M', [1], {'key': 'a'})], [('M', [0], {'key': 'a'})]], 'meaning'),
+        'remeasure': (3, [[('X', [0]), ('X', [1])], [('M', [1], {'key': 'a'})], [('X', [2], {'ctrl': 'a'})], [('M', [0], {'key': 'a'})]], 'meaning'),
+        'ctrl_first': (2, [[('X', [1])], [('M', [1], {'key': 'a'})], [('Z', [1])], [('X', [0], {'ctrl': 'a'})]], 'meaning'),
+        'remeasure2': (2, [[('X', [0]), ('X', [1])], [('M', [1], {'key': 'a'})], [('X', [1])], [('Y', [1], {'ctrl': 'a'})], [('M', [0], {'key': 'a'})]], 'meaning'),
     }
     return [
         transformer_ob(f'insertion_sort.{sname}', shape, n, lambda c, o, cx: cirq.transformers.insertion_sort_transformer(c, context=mk_context(o)), opts_for(shape), kind=kind, exact=True, desc='cirq.insertion_sort_transformer: operations only swapped when they commute (structural _commutes_ rules, disjoint qubits, measurement/control key conflicts); meaning exactly preserved')
@@ -649,6 +693,8 @@ def fam_expand(thorough):
     }
     if thorough:
         S['T_ccx'] = (3, [[('CCX', [0, 1, 2])], [('CX', [2, 0])]])
+        S['T_chain'] = (3, [[('SWAP', [0, 1]), ('H', [2])], [('FSim', [1, 2])], [('CX', [0, 2], T_IGN)], [('ISWAP', [0, 1])]])
+        S['T_phxz'] = (2, [[('PhXZ', [0])], [('CX', [0, 1])]])
     KEEP = [('all', None), ('keep_cz', lambda op: isinstance(op.gate, (cirq.CZPowGate, cirq.ZPowGate, cirq.XPowGate, cirq.YPowGate, cirq.HPowGate)))]
     obs = []
     for sname, (n, shape) in S.items():
@@ -703,6 +749,8 @@ def fam_sync(thorough):
         'last_busy': (2, [[('X', [0])], [('M', [0], {'key': 'a'})], [('X', [1])]]),
         'sub': (2, [[('X', [0])], [('SUB', [0, 1], _sub([[('X', [1])], [('M', [1], {'key': 'b'})], [('Z', [0])]]))], [('M', [0], {'key': 'a'})], [('I1', [1])]]),
     }
+
+    S.update({'key.' + k: v for k, v in key_shapes().items()})
 
     def extra(cx, B, out, opt, lab):
         ign = set(opt.get('tags_to_ignore', ()))
@@ -760,6 +808,13 @@ def fam_defer(thorough):
         'sub': (2, [[('X', [0])], [('SUB', [0, 1], _sub([[('M', [0], {'key': 'a'})], [('X', [1], {'ctrl': 'a'})]]))], [('Z', [1])]]),
         'two_keys': (2, [[('X', [0]), ('X', [1])], [('M', [0], {'key': 'a'}), ('M', [1], {'key': 'b'})], [('X', [0], {'ctrl': ('a', 'b')})]]),
         'feedback': (1, [[('X', [0])], [('M', [0], {'key': 'a'})], [('X1', [0], {'ctrl': 'a'})], [('Z', [0])]]),
+        'sympy_cond': (2, [[('X', [0]), ('X', [1])], [('M', [0], {'key': 'a'}), ('M', [1], {'key': 'b'})], [('Y', [0], {'ctrl': 'sympy:a > b'})]]),
+    }
+    # found on the unchanged tree: an earlier measurement that EQUALS a terminal one (same qubit, same
+    # key) is treated as terminal (set membership by value) and not deferred
+    FINDING = {
+        'ctrl': (2, [[('X', [0])], [('M', [0], {'key': 'a'})], [('Y', [1], {'ctrl': 'a'})], [('X', [0])], [('M', [0], {'key': 'a'})]]),
+        'plain': (1, [[('X', [0])], [('M', [0], {'key': 'a'})], [('X', [0])], [('M', [0], {'key': 'a'})]]),
     }
 
     def extra(cx, B, out, opt, lab):
@@ -780,7 +835,31 @@ def fam_defer(thorough):
             desc='cirq.defer_measurements: ancilla qubits start in |0>, per-record super-operators on the system qubits (ancillas traced out) agree with the mid-circuit-measurement + classical-control meaning; all output measurements terminal',
         )
         for sname, (n, shape) in S.items()
-    ]
+    ] + [_defer_finding(FINDING, extra)]
+
+
+def _defer_finding(FINDING, extra):
+    import cirq
+
+    names = list(FINDING)
+
+    def body(cx, wrong=False):
+        if wrong:
+            twin_budget(cx)
+        n, shape = FINDING[names[cx.choose('shape', len(names))]]
+        qs = cirq.LineQubit.range(n)
+        B = build(cx, shape, qs, pin_after=1 if wrong else None)
+        out = cirq.defer_measurements(B.circuit)
+        extra(cx, B, out, {}, 'defer_measurements(repeated key)')
+        same_meaning(cx, B, out, qs, 'defer_measurements(repeated key)', wrong=wrong)
+
+    return Obligation(
+        'finding.defer_measurements.repeated_key',
+        body,
+        twin=None,
+        points=[{'choose:shape': 0}, {'choose:shape': 1}],
+        desc='defer_measurements on a circuit measuring the same qubit under the same key twice, the second time terminally (with / without an operation controlled by the key)',
+    )
 
 
 def fam_dephase_drop(thorough):
@@ -955,6 +1034,26 @@ def _split_moment(m, _i=None):
     return [cirq.Moment(one), cirq.Moment(rest)]
 
 
+def _merge_batch(moments):
+    import cirq
+
+    ops = list(moments[0].operations)
+    qs = set(moments[0].qubits)
+    k = 1
+    while k < len(moments) and not (qs & set(moments[k].qubits)):
+        ops += list(moments[k].operations)
+        qs |= set(moments[k].qubits)
+        k += 1
+    return cirq.Moment(ops), list(moments[k:])
+
+
+def _split_moment_keep_order(m, _i=None):
+    import cirq
+
+    ops = list(m.operations)
+    return [cirq.Moment(ops[:1]), cirq.Moment(ops[1:])]
+
+
 def fam_primitives(thorough):
     import cirq
 
@@ -964,7 +1063,11 @@ def fam_primitives(thorough):
         'sub': (2, [[('X', [0])], [('SUB', [0, 1], _sub([[('Z', [0]), ('X', [1])], [('CZ', [0, 1])], [('Y', [0])]]))], [('Z', [1])]]),
         'subign': (2, [[('X', [0])], [('SUB', [0, 1], _sub([[('Z', [0])], [('X', [0])]], tags=(IGN,)))], [('X', [0])]]),
     }
-    MEAS = {'keys': (2, [[('X', [0])], [('M', [0], {'key': 'a'})], [('X', [1], {'ctrl': 'a'})], [('Z', [1])], [('M', [1], {'key': 'b'})]])}
+    if thorough:
+        BASE['T_long'] = (3, [[('X', [0]), ('S', [1])], [('CZ1', [0, 1]), ('H1', [2])], [('Z', [0]), ('CZ', [1, 2])], [('Y1', [1], T_IGN)], [('CCZ', [0, 1, 2])], [('X1', [2]), ('T', [1])]])
+    BASE['nested2'] = (2, [[('X', [0])], [('SUB', [0, 1], _sub([[('Z', [0])], [('X', [1])], [('SUB', [0, 1], _sub([[('Y', [0])], [('Z', [1])], [('CZ', [0, 1])]]))]]))], [('Z', [1])]])
+    BASE['nested2ign'] = (2, [[('X', [0])], [('SUB', [0, 1], _sub([[('Z', [0])], [('X', [1])], [('SUB', [0, 1], _sub([[('Y', [0])], [('Z', [1])], [('CZ', [0, 1])]], tags=(IGN,)))]]))], [('Z', [1])]])
+    MEAS = {k: v for k, v in key_shapes().items() if k != 'samemoment'}  # merge_* sort the ops of a moment by qubits: order inside one moment is not kept (see bounds)
     obs = []
 
     def add(pname, run, shapes, desc, more=({},), untouched=False, kind='unitary', exact=False, extra=None, check_ignored=True):
@@ -981,7 +1084,7 @@ def fam_primitives(thorough):
     add('map_operations', lambda c, o, cx: cirq.map_operations(c, _halves, **kw(o)), BASE, 'cirq.map_operations with op -> two half-power ops (wrapped in a tagged CircuitOperation): out*in^dagger = g*I, ignored ops identical, deep handling', untouched=True)
     add('map_operations_and_unroll', lambda c, o, cx: cirq.map_operations_and_unroll(c, _halves, **kw(o)), BASE, 'cirq.map_operations_and_unroll with op -> two half-power ops: placement through the placement cache keeps the order on every qubit', untouched=True)
     add('map_operations_and_unroll.meas', lambda c, o, cx: cirq.map_operations_and_unroll(c, _halves, **kw(o)), MEAS, 'same with measurement / classical control present', kind='meaning')
-    add('map_moments', lambda c, o, cx: cirq.map_moments(c, _split_moment, **kw(o)), {k: BASE[k] for k in ('mixed', 'sub', 'subign')}, 'cirq.map_moments with moment -> [1-qubit ops, other ops]', exact=True)
+    add('map_moments', lambda c, o, cx: cirq.map_moments(c, _split_moment, **kw(o)), {k: BASE[k] for k in ('mixed', 'sub', 'subign', 'nested2', 'nested2ign')}, 'cirq.map_moments with moment -> [1-qubit ops, other ops]', exact=True)
     add(
         'merge_operations',
         lambda c, o, cx: cirq.merge_operations(c, o['mf'], **kw(o)),
@@ -991,7 +1094,38 @@ def fam_primitives(thorough):
         exact=True,
     )
     add('merge_operations.meas', lambda c, o, cx: cirq.merge_operations(c, _wrap2, **kw(o)), MEAS, 'merge_operations must not merge across measurement / control key dependencies', kind='meaning')
-    add('merge_moments', lambda c, o, cx: cirq.merge_moments(c, _merge_disjoint_moments, **kw(o)), {k: BASE[k] for k in ('mixed', 'sub', 'subign')}, 'cirq.merge_moments with "merge when qubit-disjoint"', exact=True)
+    def merged_everywhere(cx, B, out, opt, lab):
+        ign = set(opt['tags_to_ignore'])
+
+        def ok(circ):
+            ms = circ.moments
+            if any(not (set(a.qubits) & set(b.qubits)) for a, b in zip(ms, ms[1:])):
+                return False
+            if opt['deep']:
+                for op in circ.all_operations():
+                    if isinstance(op.untagged, cirq.CircuitOperation) and not (ign & set(op.tags)) and not ok(op.untagged.circuit):
+                        return False
+            return True
+
+        cx.check(ok(out), label=f'{lab}: no two adjacent moments left that the merge function would merge (all nesting levels with deep)')
+
+    add('merge_moments', lambda c, o, cx: cirq.merge_moments(c, _merge_disjoint_moments, **kw(o)), {k: BASE[k] for k in ('mixed', 'sub', 'subign', 'nested2')}, 'cirq.merge_moments with "merge when qubit-disjoint": meaning exactly preserved; afterwards no adjacent qubit-disjoint moments remain, at every nesting level with deep=True', exact=True, extra=merged_everywhere)
+    add('merge_moments_batch', lambda c, o, cx: cirq.transformers.transformer_primitives.merge_moments_batch(c, _merge_batch, **kw(o)), {k: BASE[k] for k in ('mixed', 'sub', 'subign', 'nested2', 'nested2ign')}, 'merge_moments_batch with "merge the longest qubit-disjoint run": meaning exactly preserved, ignored sub-circuits untouched at every depth', exact=True)
+    # found on the unchanged tree: the recursion of merge_moments drops tags_to_ignore
+    n_, shape_ = BASE['nested2ign']
+    obs.append(
+        transformer_ob(
+            'finding.merge_moments.deep_ignore_nested',
+            shape_,
+            n_,
+            lambda c, o, cx: cirq.merge_moments(c, _merge_disjoint_moments, **kw(o)),
+            [dict(deep=True, tags_to_ignore=(IGN,))],
+            exact=True,
+            untouched_subs=False,
+            desc='merge_moments(deep=True, tags_to_ignore): a CircuitOperation with an ignored tag two nesting levels deep must be left alone',
+        )
+    )
+    add('map_moments.meas', lambda c, o, cx: cirq.map_moments(c, _split_moment_keep_order, **kw(o)), MEAS, 'map_moments with measurement / classical control present', kind='meaning')
     add(
         'merge_operations_to_circuit_op',
         lambda c, o, cx: cirq.merge_operations_to_circuit_op(c, lambda a, b: all(len(x.qubits) <= 2 for x in list(a) + list(b)), **kw(o)),
@@ -1007,6 +1141,7 @@ def fam_primitives(thorough):
         more=({'k': 1}, {'k': 2}),
         exact=True,
     )
+    add('merge_operations_to_circuit_op.meas', lambda c, o, cx: cirq.merge_operations_to_circuit_op(c, lambda a, b: True, **kw(o)), MEAS, 'merge_operations_to_circuit_op(can_merge = always) with measurement / classical control present', kind='meaning')
     add('merge_k_qubit_unitaries_to_circuit_op.meas', lambda c, o, cx: cirq.merge_k_qubit_unitaries_to_circuit_op(c, 2, **kw(o)), MEAS, 'same with measurement / classical control present', kind='meaning')
     add('toggle_tags', lambda c, o, cx: cirq.toggle_tags(c, [IGN, 'x'], deep=o['deep']), {k: BASE[k] for k in ('ign', 'sub')}, 'cirq.toggle_tags: meaning exactly preserved; tags are the symmetric difference', exact=True, check_ignored=False, extra=_toggle_extra)
 
@@ -1017,6 +1152,7 @@ def fam_primitives(thorough):
         'two': (3, [[('SUB', [0, 1], _sub([[('X', [0])], [('CZ', [0, 1])]], tags=(MT,))), ('SUB', [2], _sub([[('Y', [2])], [('Z', [2])]]))], [('CZ', [1, 2])]]),
         'nested': (2, [[('SUB', [0, 1], _sub([[('X', [0])], [('SUB', [0, 1], _sub([[('CZ', [0, 1])], [('Y', [1])]], tags=(MT,)))]], tags=(MT,)))], [('X', [1])]]),
         'reps': (1, [[('X', [0])], [('SUB', [0], _sub([[('Z', [0])], [('X', [0])]], tags=(MT,), reps=2))]]),
+        'outer_untagged': (2, [[('SUB', [0, 1], _sub([[('X', [0])], [('SUB', [0, 1], _sub([[('CZ', [0, 1])], [('Y', [1])]], tags=(MT,)))], [('Z', [0])]]))], [('X', [1])]]),
     }
     for uname, U in (('unroll_circuit_op', cirq.unroll_circuit_op), ('unroll_circuit_op_greedy_earliest', cirq.unroll_circuit_op_greedy_earliest), ('unroll_circuit_op_greedy_frontier', cirq.unroll_circuit_op_greedy_frontier)):
         for sname, (n, shape) in UN.items():
@@ -1124,6 +1260,12 @@ def fam_gauge(thorough):
     gauge_ob('gauge.sqrt_cz', GC.SqrtCZGaugeTransformer, [[('X', [0]), ('Y', [1])], [('SQCZ', [0, 1])], [('SQCZi', [0, 1])], [('X', [1])]], 2, 'SqrtCZGaugeTransformer: CZ**0.5 and CZ**-0.5, all PRNG outcomes (identity / X-conjugated with S correction, swapped qubits)')
     gauge_ob('gauge.cphase', GC.CPhaseGaugeTransformer, [[('X', [0]), ('Y', [1])], [('CZ', [0, 1])], [('X', [0])]], 2, 'CPhaseGaugeTransformer: CZ**t with SYMBOLIC t, all 16 Pauli pairs (negated exponent, Z**t / Z**(1+t) corrections, phased X / PhasedXZ posts)')
     gauge_ob('gauge.spin_inversion', GC.SpinInversionGaugeTransformer, [[('X', [0]), ('Y', [1])], [('ZZ', [0, 1])], [('X', [1])]], 2, 'SpinInversionGaugeTransformer: ZZ**t with symbolic t')
+    import cirq_google
+
+    gauge_ob('gauge.syc', cirq_google.transformers.SYCGaugeTransformer, [[('X', [0]), ('Y', [1])], [('SYC', [0, 1])], [('PhX', [1])]], 2, 'cirq_google SYCGaugeTransformer: all 8 gauges (documented SYC = FSim(pi/2, pi/6))')
+    if thorough:
+        gauge_ob('gauge.T_cphase_3q', GC.CPhaseGaugeTransformer, [[('X', [0])], [('CZ', [0, 1])], [('CZ', [1, 2])], [('Y', [2])]], 3, 'CPhaseGaugeTransformer: two symbolic CZ**t targets in consecutive moments, 16 x 16 Pauli pairs', weight=10)
+        gauge_ob('gauge.T_cz_chain', GC.CZGaugeTransformer, [[('PhX', [0]), ('X', [1])], [('CZ1', [0, 1])], [('H', [0]), ('Y', [1])], [('CZ1', [1, 0])]], 2, 'CZGaugeTransformer: two targets with symbolic gates between them', weight=10)
     # ISWAP / SQRT_ISWAP: the Rz gauge takes a SYMBOLIC angle from prng.random(); the XY gauge
     # re-synthesises a matrix through np.angle and can only take concrete angles (menu)
     mode = lambda prng: 'symbolic' if prng.draws and prng.draws[0] == 0 else 'menu'
@@ -1149,6 +1291,9 @@ def fam_gauge(thorough):
         obs.append(Obligation(name, body, twin=lambda cx, b=body: b(cx, wrong=True), points=[{}], opts={'weight': 6}, desc=desc))
 
     sweep_ob('gauge.cz.as_sweep', GC.CZGaugeTransformer, [[('X', [0]), ('PhX', [1])], [('CZ1', [0, 1])], [('Y', [0])]], 2, 1, 1, 'CZGaugeTransformer.as_sweep(N=1): the parameterised circuit resolved at the sweep point has the unitary of the input up to phase, for each of the 16 scripted gauges')
+    if thorough:
+        sweep_ob('gauge.T_cz.as_sweep2', GC.CZGaugeTransformer, [[('X', [0]), ('PhX', [1])], [('CZ1', [0, 1])], [('Y', [0])]], 2, 2, 1, 'CZGaugeTransformer.as_sweep(N=2): 16 x 16 scripted gauge pairs, both sweep points')
+        sweep_ob('gauge.T_sqrt_cz.as_sweep', GC.SqrtCZGaugeTransformer, [[('X', [0])], [('SQCZ', [0, 1])], [('Y', [1])]], 2, 1, 2, 'SqrtCZGaugeTransformer.as_sweep(N=1) (CZ**symbol two-qubit-gate symbolizer), every scripted outcome')
     sweep_ob('gauge.spin_inversion.as_sweep', GC.SpinInversionGaugeTransformer, [[('X', [0])], [('ZZ', [0, 1])], [('Y', [1])]], 2, 2, 1, 'SpinInversionGaugeTransformer.as_sweep(N=2): both sweep points, every scripted outcome')
     return obs
 
@@ -1207,6 +1352,7 @@ def fam_decorator(thorough):
     S = {
         'sub': (2, [[('X', [0])], [('SUB', [0, 1], _sub([[('Z', [0])], [('SUB', [1], _sub([[('X', [1])], [('Y', [1])]]))], [('CZ', [0, 1])]]))], [('Y', [1])]]),
         'subign': (2, [[('X', [0], T_IGN)], [('SUB', [0, 1], _sub([[('Z', [0])], [('CZ', [0, 1])]], tags=(IGN,)))], [('SUB', [1], _sub([[('Y', [1])], [('X', [1], T_IGN)]]))]]),
+        'nested2ign': (2, [[('X', [0])], [('SUB', [0, 1], _sub([[('Z', [0])], [('SUB', [0, 1], _sub([[('Y', [0])], [('CZ', [0, 1])]], tags=(IGN,)))]]))]]),
     }
     obs = []
     for sname, (n, shape) in S.items():
@@ -1223,17 +1369,6 @@ def fam_decorator(thorough):
                 # how many EigenGate ops must have been split: top level always; nested iff deep was
                 # requested AND the decorator adds deep support; never under an ignored CircuitOperation
                 ign = set(opt['tags_to_ignore'])
-
-                def count(circ, descend):
-                    k = 0
-                    for op in circ.all_operations():
-                        if ign & set(op.tags):
-                            k += sum(1 for _ in CS.flat_ops(cirq.Circuit(op)))
-                        elif isinstance(op.untagged, cirq.CircuitOperation):
-                            k += count(op.untagged.circuit, descend) if descend else sum(1 for _ in CS.flat_ops(cirq.Circuit(op)))
-                        else:
-                            k += 2 if descend is not None and isinstance(op.gate, cirq.EigenGate) else 1
-                    return k
 
                 def count_top(circ):
                     k = 0
@@ -1283,10 +1418,65 @@ LEVEL = (
 )
 
 
+ASSUMPTIONS = BASE_ASSUMPTIONS + [
+    'tolerance slivers: on a path where the code under test decided `|x| <= tol` (abs/isclose with tol <= 1e-6 absolute, <= 1e-4 relative: '
+    'is_negligible_turn, canonicalisation tests, _is_integer in eject_z) on its TRUE side, the inputs are restricted to x == 0 exactly '
+    '(symx/slivers.py adds the equality to the path condition; with atol=0 it is implied, otherwise it is an assumption): inputs for which a '
+    'compared quantity lies strictly inside a tolerance window of the code without hitting the special value are outside the claim '
+    '(the encoding has no Lipschitz reasoning for the unit-circle abstraction)',
+    'eject_z / eject_phased_paulis are run with atol=0.0 (eject_phased_paulis default is 1e-8)',
+    'np.random.Generator is replaced by a scripted generator: every choice(...) outcome with non-zero probability is explored as a selector, '
+    'the probability vector must sum to 1; random() is a symbolic real in [0,1] for the Rz gauges and a 4-value menu for the XY gauges',
+    'meaning of one operation = cirq.unitary(op) / cirq.kraus(op) of that single operation (tied to the documentation by C03/C04); for the INPUT circuit the '
+    'documented closed-form matrices (oracles/gates_doc.py) are used instead; composition, ordering, projection, branching on records, classical '
+    'control, ancilla initialisation and tracing are done by oracles/circuit_sem.py; operations of one moment take effect in the order listed',
+    'vacuity twins perturb the documented matrix of the first operation of the input circuit by 0.01 in its last entry and replace all but the first two '
+    'parameters by generic constants so that the witness search stays cheap',
+]
+
+
 def main(tier, seed=0, replay=None, only=None, procs=None):
     bounds = {
         'parameter_box': [-BOX, BOX],
+        'symbolic': 'every continuous parameter of every gate of the input circuit (fresh real per occurrence: exponents, phase exponents, PhasedXZ x/z/a, FSim theta/phi, rx/rz angles); prng.random() of the Rz gauges',
+        'enumerated': 'circuit shapes (menus below), options (deep, tags_to_ignore, categories, no_decomp, after_other_operations, tags_to_check, merge / map functions, k), every PRNG choice',
+        'shape_menus': {
+            'size': '<= 6 moments, <= 3 qubits (+ ancillas created by defer_measurements), <= 7 symbolic parameters per shape (quick); a few 6-op shapes and full 3-parameter PhasedXZ in thorough',
+            'gate_menu': sorted(gate_table_names()),
+            'neighbourhoods': 'Z / PhasedXZ(z) in front of (phased) X, CZ, swap-like (SWAP, ISWAP, FSim), CX/H (not phaseable), measurement, ignored op, end of circuit, nested CircuitOperation (plain, repeated, ignored, doubly nested ignored); held W in front of Z, partial W, CZ (single / double cross), another W, unknown gate, ignored op, measurement; gaps / ignored ops / nested circuits for align, stratify, drop_empty; measurement-key neighbourhoods (control after measurement, re-measurement of a key on the same / another qubit behind an op it controls, same key on two qubits, value-equal operations, control listed before a re-measurement in one moment) for every pass that moves or groups operations',
+        },
+        'per_record_superoperators': 'measurement circuits: <= 2 system qubits (3 for one synchronize shape) + <= 3 ancillas',
         'tolerance': TOL,
-        'outside': [],
+        'outside': [
+            'merge_single_qubit_gates_*, merge_single_qubit_moments_to_phxz, merge_k_qubit_unitaries (re-synthesis), drop_negligible_operations, dynamical_decoupling, randomized_measurements, diagonal_optimization, optimize_for_target_gateset, routing, noise_adding, qubit_management_transformers, lightcone_filter, idle_moments_gauge, multi_moment_cphase_gauge: np.angle / LAPACK / trace-distance code that cannot take symbolic parameters (or not in the DESIGN run list)',
+            'XY gauges of ISWAP / SQRT_ISWAP with a symbolic angle (PhasedXZGate.from_matrix -> np.angle); CZ-gauge targets with symbolic exponent (GateFamily uses approximate equality); GaugeTransformer.as_sweep for gauges with symbolic post gates (single_qubit_matrix_to_phxz)',
+            'eject_z / eject_phased_paulis with atol > 0, eject_parameterized=True (sympy), PhasedXZ with symbolic z in eject_phased_paulis (np.isclose window)',
+            'insertion_sort_transformer on overlapping operations with SYMBOLIC parameters whose commutation is decided numerically (np.allclose on matrices); such pairs are concrete gates in the menu',
+            'measurement confusion maps (_ConfusionChannel), qudit measurements (_ModAdd), SympyCondition other than the one menu entry, classically controlled CircuitOperations',
+            'order of operations inside ONE moment for merge_operations* (they sort the operations of a moment by qubits)',
+            'moment structure of the outputs beyond the documented post-conditions checked (ignored ops of align_left stay in their moment, no empty moments, terminal measurements in the final moment, one category per moment, everything matching unrolled / merged)',
+            'float rounding, complex64, parameters outside the box, more than 3 system qubits',
+        ],
     }
-    return run_check(PID, tier, 'checks.C06', SHIMS, LEVEL, BASE_ASSUMPTIONS, bounds, seed=seed, replay=replay, only=only, procs=procs)
+    rc = run_check(PID, tier, 'checks.C06', SHIMS, LEVEL, ASSUMPTIONS, bounds, seed=seed, replay=replay, only=only, procs=procs)
+    if rc == 0 and not replay:
+        # guard: every C06 VC is expected to be discharged by the identical-terms / linear-abstraction
+        # stages, which do not use the path condition.  The exact stage conjoins the pin-substituted
+        # path condition; float residue of such substitutions can make that conjunction unsatisfiable
+        # (observed while building this check), so an "exact unsat" is not accepted as a proof here.
+        import json
+        import os
+
+        try:
+            ev = json.load(open(os.path.join(os.path.dirname(os.path.dirname(os.path.abspath(__file__))), 'evidence', f'{PID}.json')))
+            n_exact = ev['coverage']['vcs_by_stage']['exact_unsat']
+        except Exception:
+            n_exact = 0
+        if n_exact:
+            print(f'INCONCLUSIVE: {n_exact} VC(s) were only discharged by the exact stage (not accepted for C06, see checks/C06.py main)')
+            return 2
+    return rc
+
+
+def gate_table_names():
+    return list(gate_table())
